@@ -6,6 +6,7 @@ import Katib.Drv.C19
 import Katib.Drv.C15
 import Katib.Drv.C08S
 import Katib.Drv.C07J
+import Katib.Drv.C04D
 import Katib.Drv.C10
 import Katib.Drv.C17
 import Katib.Drv.C13
@@ -28,6 +29,7 @@ def handle (toks : List String) : String :=
   | "C15" :: r => handleC15 r
   | "C08S" :: r => handleC08S r
   | "C07J" :: r => handleC07J r
+  | "C04D" :: r => handleC04D r
   | "C10" :: r => handleC10 r
   | "C17" :: r => handleC17 r
   | "C13" :: r => handleC13 r
@@ -49,6 +51,7 @@ def handleOracle (toks out : List String) : String :=
   | "C15" :: r => oracleLineC15 r out
   | "C08S" :: r => oracleLineC08S r out
   | "C07J" :: r => oracleLineC07J r out
+  | "C04D" :: r => oracleLineC04D r out
   | "C10" :: r => oracleLineC10 r out
   | "C17" :: r => oracleLineC17 r out
   | "C13" :: r => oracleLineC13 r out
